@@ -68,13 +68,15 @@ EditWhy(X, st) ==
 
 (* first failing clause of the query part (values on the post state P)     *)
 QueryWhy(P, st) ==
-  LET s == st.qs  q == st.q  A == SetOf(st.qA) IN
-  IF ~ClosedDeep(U, P, s) THEN ""       \* the query API is specified for closed schedulers
-  ELSE IF q.len # Cardinality(P.mem[s]) THEN "len"
-  ELSE IF q.ccexc # "none" THEN "check-cycles-raises"
-  ELSE IF q.cc # CheckCycles(U, P, s) THEN "check-cycles"
-  ELSE IF Acyclic(P, s) /\ (q.topoexc # "none" \/ ~IsLinearExtension(P, s, q.topo)) THEN "topological-order"
-  ELSE IF ~Acyclic(P, s) /\ q.topoexc = "none" THEN "topological-order-no-raise"
+  LET s == st.qs  q == st.q  A == SetOf(st.qA)
+      closed == ClosedDeep(U, P, s)     \* cycle detection and ordering are specified for closed schedulers
+  IN
+  IF q.len # Cardinality(P.mem[s]) THEN "len"
+  ELSE IF closed /\ q.ccexc # "none" THEN "check-cycles-raises"
+  ELSE IF closed /\ q.cc # CheckCycles(U, P, s) THEN "check-cycles"
+  ELSE IF closed /\ Acyclic(P, s) /\ (q.topoexc # "none" \/ ~IsLinearExtension(P, s, q.topo)) THEN "topological-order"
+  ELSE IF closed /\ ~Acyclic(P, s) /\ q.topoexc = "none" THEN "topological-order-no-raise"
+  ELSE IF closed /\ Acyclic(P, s) /\ (q.topo_xexc # "none" \/ ~IsLinearExtension(P, s, q.topo_x)) THEN "topological-order-interleaved"
   ELSE IF ~NoDup(q.entry) \/ SetOf(q.entry) # Entry(P, s) THEN "entry-jobs"
   ELSE IF ~NoDup(q.exit_t) \/ SetOf(q.exit_t) # Exit(U, P, s, TRUE) THEN "exit-jobs"
   ELSE IF ~NoDup(q.exit_f) \/ SetOf(q.exit_f) # Exit(U, P, s, FALSE) THEN "exit-jobs-forever"
